@@ -1,17 +1,18 @@
 (** C01 — the binary64 loop theorems of [ProofsLoops] carried over to the models that contain the
-    loops: C05's clock [tick_loop] and C04's static-sound [carry] (the `while fractional_position
+    loops: C05's clock [tick_loop_old] and C04's static-sound [carry] (the `while fractional_position
     >= 1.0` loop around [update_position]), both instantiated with the binary64 [Num] instance. *)
 From Coq Require Import ZArith List Bool Reals Lra Lia.
 From Flocq Require Import Core IEEE754.BinarySingleNaN.
-From KV Require Import Base.IEEE Base.Outcome Base.Num C01.Model C01.ProofsLoops C04.Transport C04.Resampler C04.StaticData C04.StaticSound C05.Model.
+From KV Require Import Base.IEEE Base.Outcome Base.Num C01.Model C01.ProofsLoops C04.Transport C04.Resampler C04.StaticData C04.StaticSound C05.Model C05.ProofsSpeed.
 Import ListNotations.
 
-(** ** C05: [Clock::update]'s tick loop is the scalar loop plus the (checked) tick counter *)
+(** ** C05: the tick loop [Clock::update] had before the F7 repair ([tick_loop_old], kept as a
+    counter-model) is the scalar loop plus the (checked) tick counter *)
 Lemma tick_loop_of_sub1_loop (fuel : nat) : forall (tk : Z) (x : f64) (n : nat) (r : f64),
   sub1_loop fuel x = Ok (n, r) -> (tk + Z.of_nat n <= u64_max)%Z ->
-  tick_loop (T := f64) fuel tk x = Ok ((tk + Z.of_nat n)%Z, r).
+  tick_loop_old (T := f64) fuel tk x = Ok ((tk + Z.of_nat n)%Z, r).
 Proof.
-  induction fuel as [|f IH]; intros tk x n r E Hb; rewrite sub1_loop_unfold in E; cbn [tick_loop];
+  induction fuel as [|f IH]; intros tk x n r E Hb; rewrite sub1_loop_unfold in E; cbn [tick_loop_old];
     change (nleb n1 x) with (le64 one64 x); destruct (le64 one64 x) eqn:L; try discriminate.
   - inversion E; subst. rewrite Z.add_0_r. reflexivity.
   - change (nsub x n1) with (sub64 x one64).
@@ -21,9 +22,9 @@ Proof.
   - inversion E; subst. rewrite Z.add_0_r. reflexivity.
 Qed.
 Lemma tick_loop_hang_of_sub1_loop (fuel : nat) : forall (tk : Z) (x : f64),
-  sub1_loop fuel x = Hang -> is_ok (tick_loop (T := f64) fuel tk x) = false.
+  sub1_loop fuel x = Hang -> is_ok (tick_loop_old (T := f64) fuel tk x) = false.
 Proof.
-  induction fuel as [|f IH]; intros tk x E; rewrite sub1_loop_unfold in E; cbn [tick_loop];
+  induction fuel as [|f IH]; intros tk x E; rewrite sub1_loop_unfold in E; cbn [tick_loop_old];
     change (nleb n1 x) with (le64 one64 x); destruct (le64 one64 x) eqn:L; try discriminate; [reflexivity|].
   change (nsub x n1) with (sub64 x one64).
   destruct (sub1_loop f (sub64 x one64)) as [[n' r']| |] eqn:E'; try discriminate.
@@ -82,11 +83,11 @@ Section Carry.
 End Carry.
 
 Local Open Scope R_scope.
-(** [Clock::update]'s loop in binary64: exact tick count below 2^53 ... *)
+(** [Clock::update]'s OLD loop in binary64: exact tick count below 2^53 ... *)
 Lemma tick_loop_floor (x : f64) (fuel : nat) (tk : Z) :
   is_finite x = true -> 0 <= B2R x <= IZR (2 ^ 53) -> (Z.to_nat (Zfloor (B2R x)) <= fuel)%nat ->
   (tk + Zfloor (B2R x) <= u64_max)%Z ->
-  exists r, tick_loop (T := f64) fuel tk x = Ok ((tk + Zfloor (B2R x))%Z, r) /\ is_finite r = true /\
+  exists r, tick_loop_old (T := f64) fuel tk x = Ok ((tk + Zfloor (B2R x))%Z, r) /\ is_finite r = true /\
             B2R r = B2R x - IZR (Zfloor (B2R x)) /\ 0 <= B2R r < 1.
 Proof.
   intros Fx Hx Hf Hb.
@@ -98,9 +99,33 @@ Proof.
 Qed.
 (** ... and no return from 2^55 on (or +inf), whatever the fuel and the tick count *)
 Lemma tick_loop_diverges_b64 (x : f64) :
-  carry_diverges x -> forall (fuel : nat) (tk : Z), is_ok (tick_loop (T := f64) fuel tk x) = false.
+  carry_diverges x -> forall (fuel : nat) (tk : Z), is_ok (tick_loop_old (T := f64) fuel tk x) = false.
 Proof.
   intros D fuel tk. apply tick_loop_hang_of_sub1_loop. apply sub1_loop_diverges. exact D.
+Qed.
+
+(** F7 regression: on the divergence class the old loop never returned; the repaired
+    [tick_update] (C05: floor, saturating cast, one subtraction) returns, with a tick count that
+    did not decrease and stays within u64 and with the fraction 0 (such a timer is an integer) *)
+Lemma tick_update_on_divergence_class (x : f64) :
+  carry_diverges x ->
+  (forall (fuel : nat) (tk : Z), is_ok (tick_loop_old (T := f64) fuel tk x) = false) /\
+  (forall tk : Z, (0 <= tk <= u64_max)%Z ->
+     exists tk' r, tick_update (T := f64) tk x = (tk', r) /\ (tk <= tk' <= u64_max)%Z /\
+                   is_finite r = true /\ B2R r = 0).
+Proof.
+  intro D. split; [apply tick_loop_diverges_b64; exact D|]. intros tk Htk.
+  destruct (carry_diverges_stuck x D) as [L _].
+  destruct (tick_update_total_b64_lemma tk x Htk) as (tk' & r & E & Bt & H). rewrite L in H.
+  destruct H as (Fr & _ & Hfin & Hinf). exists tk', r. split; [exact E|]. split; [exact Bt|]. split; [exact Fr|].
+  destruct D as [->|[Fx Hx]].
+  - destruct (Hinf eq_refl) as [_ ->]. reflexivity.
+  - destruct (Hfin Fx) as [Rr _]. rewrite Rr.
+    assert (P55 : IZR (2 ^ 55) = 36028797018963968) by (cbn; lra).
+    assert (P54 : IZR (2 ^ 54) = 18014398509481984) by (cbn; lra).
+    destruct (big_format_multiple_of_4 (B2R x) (generic_format_B2R 53 1024 x)) as [k Ek]; [rewrite Rabs_pos_eq; lra|].
+    replace (IZR k * 4) with (IZR (k * 4)) in Ek by (rewrite mult_IZR; reflexivity).
+    rewrite Ek, Zfloor_IZR. lra.
 Qed.
 
 Lemma carry_diverges_b64 (A : Type) (azero : A) (fuel fl : nat) (s : ssound f64 A) :
